@@ -37,6 +37,8 @@ TraceNext ==
           \/ e.e = "Push"        /\ Push(e.r)
           \/ e.e = "TimeoutStale" /\ TimeoutStale(e.r)
           \/ e.e = "Respond"     /\ Respond(e.id, e.q)
+          \/ e.e = "RespondCorrupt"    /\ RespondBad(e.id, e.q, "RespondCorrupt")
+          \/ e.e = "RespondProtoError" /\ RespondBad(e.id, e.q, "RespondProtoError")
           \/ e.e = "Page"        /\ RespondPage(e.id, e.q, e.last)
           \/ e.e = "Timeout"     /\ Timeout(e.r)
           \/ e.e = "SocketError" /\ SocketError
